@@ -15,6 +15,7 @@ from .match import lt_true, lt_false, eq, isf
 def applied(cx):
     ws = [s for s in cx.prog.writes.get("RaftLog.applied", []) if s.kind == "write"]
     cx.check(len(ws) == 1, "single-writer", "RaftLog.applied has a single writer (found %d)" % len(ws))
+    n_unchecked = []
     for s in ws:
         v = write_value(cx, s)
         cx.check(v[0] == "param", cx.site_key(s, "write:applied"), "applied := the given index", s)
@@ -27,6 +28,7 @@ def applied(cx):
             if checked:
                 cx.ok(key, "checked setter: !(idx > committed) and !(idx < applied)", c)
                 continue
+            n_unchecked.append(c)
             # the unchecked restart path: reachable only from the constructor
             def skip(l):
                 return l[0] == "is" and l[2] is True and l[1][0] == "param" and c.fn.body.local_ty(l[1][1]) == "bool"
@@ -51,6 +53,13 @@ def applied(cx):
                     else:
                         cx.check(a == ("bool", False), cx.site_key(cc, "checked"), "ordinary callers ask for the range check", cc)
             cx.check(ok, key, "applied is set unchecked only on the explicit skip_check path", c)
+            if ok:
+                # converse: the skip_check path really is unchecked (the range-asserting setter is not reached from it)
+                chk = [x for x in callers_of(cx, s.fn) if x.fn is c.fn and x is not c] + [x for sp, x in cx.prog.calls_out[c.fn.key] if x.kind == "call" and x is not c and sp in cx.prog.short and any(w.fn.key in cx.prog.short[sp] for w in ws) is False and "RaftLog.applied" in cx.prog.modset_short(sp)]
+                chk_blocks = {x.block for x in chk if x.block != c.block}
+                okc, nc = g.after_edge_never_reaches(lambda lits: any(skip(l) for l in lits), lambda b: b in chk_blocks)
+                cx.check(okc and nc >= 1, key + ":converse", "with skip_check set the range-checked setter is not used (it would be a fatal! in the restart window)", c)
+    cx.check(len(n_unchecked) >= 1, "restart-window:path", "a live unchecked path for restoring Config.applied at construction exists (applied may exceed the stored commit index right after a restart)")
 
 
 @obligation("LOGGUARD.commit_bound", ["C14"], floor=1, kind="guard",
